@@ -151,6 +151,30 @@ def _run(check, ctx, rep, replay):
         n_search, viols, sstats = check.search(ctx)
         ctx.tick('search', t)
     stats.update(sstats)
+    # ---- the same calls again in the same process (and once more in reverse order): "returns X" must not depend on history
+    if check.need_c and getattr(check, 'repeat_probe', True):
+        t = time.time()
+        try:
+            base = [l for l in (check.corr_lines(ctx) if not replay else []) if l.endswith(' E')]
+            probe = sample(base, 30000 if ctx.tier == 'quick' else 200000, ctx.rng)
+            if probe:
+                a1, a2, a3 = ctx.run_c_twice(probe)
+                nrep = 0
+                for l, x, y, z in zip(probe, a1, a2, a3):
+                    if x != y or x != z:
+                        nrep += 1
+                        if nrep <= 20:
+                            viols.append(dict(key=l + ' ; ' + l, got='first call: %s | same call again in the same process: %s | after the reversed sequence: %s' % (x, y, z),
+                                              expected='the same result every time', what='the result of a call depends on the calls made before it'))
+                n_search += 2 * len(probe); stats['repeat_probe'] = dict(calls=len(probe), history_dependent=nrep)
+        except core.BuildError:
+            pass
+        ctx.tick('repeat_probe', t)
+    # an answer `bad-op` comes from OUR driver (no dispatch entry), never from the library: that is a broken tie, not a violation
+    nb = [v for v in viols if str(v.get('got', '')).startswith('bad-op')]
+    if nb:
+        viols = [v for v in viols if v not in nb]
+        rep['tie_broken'].append('the C driver has no dispatch entry for %s (%d search cases not evaluated)' % (sorted({v['key'].split(' ')[0] for v in nb})[:6], len(nb)))
     new_viols = []
     for v in viols:
         hit = [k for k in known if k[0] == v['key']]
